@@ -165,7 +165,7 @@ class World(object):
 
     def __init__(self, server_factory, addrs=None, gai_error=None, cuts=None,
                  horizon=0.0, faults=None, rx_limit=None, budget=200000,
-                 tls_records=None, tls_short=None, split_send=False):
+                 tls_records=None, tls_short=None, split_send=False, stop_at=None):
         self.server_factory = server_factory
         self.addrs = addrs if addrs is not None else [('ok', ('10.0.0.1', 80))]
         self.gai_error = gai_error
@@ -179,6 +179,7 @@ class World(object):
         self.tls_records = tls_records    # max record size or list
         self.tls_short = tls_short        # None | int: max bytes per TLS read
         self.split_send = split_send
+        self.stop_at = stop_at        # hard end of the observation window (virtual time)
         self.now = 0.0
         self.log = []
         self.opcount = {}
@@ -566,6 +567,17 @@ class SimSelector(lomond.selectors.SelectorBase):
             return True
         forever = timeout is None
         deadline = float('inf') if forever else w.now + max(0.0, timeout)
+        if w.stop_at is not None:
+            if w.now >= w.stop_at:
+                w.rec('wait', sock.sid, ('quiesce', timeout))
+                raise Quiesced('observation window ended at t=%r' % w.now)
+            if deadline > w.stop_at:
+                # do not run past the end of the observation window
+                t_next = conn.next_arrival(w.now)
+                if t_next is None or t_next > w.stop_at:
+                    w.now = w.stop_at
+                    w.rec('wait', sock.sid, ('quiesce', timeout))
+                    raise Quiesced('observation window ended at t=%r' % w.now)
         guard = 0
         while guard < 10000:
             guard += 1
